@@ -109,7 +109,7 @@ def compile_all(ctx, specs):
     return outs
 
 
-def run_symx(ctx, binary, pattern, workers=NCPU, deadline=None, profile=None, cap=None, max_paths=None, env=None, label=None):
+def run_symx(ctx, binary, pattern, workers=NCPU, deadline=None, profile=None, cap=None, max_paths=None, env=None, label=None, budget=False):
     """Run one symx harness over the cases matching pattern; returns parsed JSON (or an error record)."""
     import threading
     out = os.path.join(ctx.scratch, "out_%d_%d.json" % (threading.get_ident() % 100000, int(time.time() * 1000) % 1000000))
@@ -135,7 +135,7 @@ def run_symx(ctx, binary, pattern, workers=NCPU, deadline=None, profile=None, ca
     except subprocess.TimeoutExpired as ex:
         rc, err = -9, "hard timeout"
     rec = {"job": label or pattern, "binary": os.path.basename(binary), "pattern": pattern, "rc": rc,
-           "stderr_tail": err[-3000:] if err else "", "wall_s": time.time() - t0, "profile": profile or "double"}
+           "stderr_tail": err[-3000:] if err else "", "wall_s": time.time() - t0, "profile": profile or "double", "budget": bool(budget)}
     if rc == 0 and os.path.exists(out):
         with open(out) as f:
             rec["json"] = json.load(f)
@@ -220,12 +220,24 @@ def collect(ctx, policy):
             ctx.inconclusive.append({"job": job, "why": "harness exit code %s: %s" % (rec["rc"], rec["stderr_tail"][-600:])})
             continue
         j = rec["json"]
+        partial = False
         if j.get("timed_out"):
-            ctx.inconclusive.append({"job": job, "why": "deadline reached before the path work list was empty"})
+            if rec.get("budget"):
+                # budgeted job (thorough tier only): the exploration is cut at its time budget by design; what was explored is
+                # reported, what was not is stated as outside the claim of this run
+                partial = True
+                ctx.partial = getattr(ctx, "partial", [])
+                ctx.partial.append({"job": job, "paths_explored": sum(c["paths"] for c in j["cases"]),
+                                    "cases_started": sum(1 for c in j["cases"] if c["paths"] > 0), "cases": len(j["cases"]),
+                                    "note": "time budget reached with a non-empty path work list: the cases of this job are explored PARTIALLY; "
+                                            "every explored path was decided, unexplored paths are outside the claim of this run"})
+            else:
+                ctx.inconclusive.append({"job": job, "why": "deadline reached before the path work list was empty"})
         for c in j["cases"]:
             cname = c["case"]
             if c["paths"] == 0:
-                ctx.inconclusive.append({"job": job, "case": cname, "why": "no path explored"})
+                if not partial:
+                    ctx.inconclusive.append({"job": job, "case": cname, "why": "no path explored"})
                 continue
             for f in c["failing"]:
                 item = dict(case=cname, name=f["name"], kind="obligation", verdict=f["verdict"], scope=f.get("scope", ""),
@@ -267,7 +279,7 @@ def collect(ctx, policy):
                 # unexpected exception / eigen assertion escaping the code under test
                 ctx.candidates.append(dict(case=cname, name="outcome:" + oc.split(":")[0], kind="outcome", verdict="sat", scope="", site="",
                                            model=None, path="", detail=oc, binary=rec["binary"], profile=rec["profile"], count=n))
-            if need_wit:
+            if need_wit and not partial:
                 ok = any(v.get("sat", 0) > 0 for v in c["witnesses"].values())
                 if not ok and c["completed"] > 0:
                     ctx.inconclusive.append({"job": job, "case": cname, "why": "no reachability witness came back sat (vacuous?)"})
@@ -420,7 +432,8 @@ def finish(ctx, spec, binaries):
             "rule": "evaluation = one explored path (one equivalence class of inputs under the branch outcomes of the real code); "
                     "distinct = distinct decision strings; non-trivial = path ran to the end of the harness (completed)",
             "paths_truncated": tot["cut"],
-            "exhaustive": (tot["cut"] == 0 and not ctx.inconclusive),
+            "exhaustive": (tot["cut"] == 0 and not ctx.inconclusive and not getattr(ctx, "partial", [])),
+            "partially_explored_budgeted_jobs": getattr(ctx, "partial", []),
             "cases": tot["cases"],
             "free_decisions": tot["free_decisions"],
             "forced_decisions": tot["forced_decisions"],
@@ -454,6 +467,8 @@ def finish(ctx, spec, binaries):
     for v in ctx.violations:
         print("VIOLATION property=%s replay=%s" % (ctx.pid, v["replay"]))
         print("  case=%s obligation=%s site=%s detail=%s (%s)" % (v["case"], v["name"], v.get("site"), str(v.get("detail"))[:200], v["replay_detail"]))
+    for pj in getattr(ctx, "partial", []):
+        print("PARTIAL property=%s budgeted job '%s': %d paths explored and decided, work list not empty at the time budget (stated in the evidence)" % (ctx.pid, pj["job"], pj["paths_explored"]))
     for inc in ctx.inconclusive[:20]:
         print("INCONCLUSIVE property=%s %s" % (ctx.pid, json.dumps({k: v for k, v in inc.items() if k not in ("model",)})[:400]))
     print("%s tier=%s: %d cases, %d paths (%d truncated), %d/%d obligations discharged, %d sat, %d unknown, %d queries, solver %.1fs, wall %.1fs"
